@@ -154,8 +154,8 @@ def r04_3(rep, M, rid):
             if isinstance(d, ast.BinOp) and isinstance(d.op, ast.Sub):
                 ref = fl.slice(d.right, fl.node_of(r))
                 from_copies = any(isinstance(x, ast.Subscript) for e in ref["exprs"] for x in ast.walk(e))
-                shifted = [s for s in ast.walk(fn) if isinstance(s, ast.Assign) and isinstance(s.value, ast.BinOp) and isinstance(s.value.op, ast.Sub)
-                           and norm(s.value.right) == norm(r.targets[0]) and norm(s.value.left) == norm(d.left)]
+                shifted = [x for x in ast.walk(fn) if isinstance(x, ast.BinOp) and isinstance(x.op, ast.Sub)
+                           and norm(x.right) == norm(r.targets[0]) and norm(x.left) == norm(d.left)]
                 if from_copies and shifted:
                     rep.ok(rid, f"{name}: copies are shifted by rint(copy - reference copy) to one periodic image before they are combined")
                 else:
@@ -401,10 +401,14 @@ def within_basis(rep, M, rid):
     basis, origin = ps[1], ps[2]
     # (1) the corners: origin + every non-empty subset of {basis[0], basis[1], basis[2]}, each exactly once
     corners = {}
-    for s2 in ast.walk(fn):
-        if isinstance(s2, ast.Assign) and len(s2.targets) == 1 and isinstance(s2.targets[0], ast.Name):
+    # a corner is either a named local or an element written directly inside the collection literal the corners are gathered in
+    cands = [(s2.targets[0].id, s2.value, s2) for s2 in ast.walk(fn) if isinstance(s2, ast.Assign) and len(s2.targets) == 1 and isinstance(s2.targets[0], ast.Name)]
+    for lit in [x for x in ast.walk(fn) if isinstance(x, (ast.Tuple, ast.List)) and isinstance(x.ctx, ast.Load) and len(x.elts) >= 6]:
+        cands += [(f"<element {k}>", e, e) for k, e in enumerate(lit.elts) if not isinstance(e, ast.Name)]
+    for cname, cval, s2 in cands:
+        if True:
             terms = []
-            stack = [s2.value]
+            stack = [cval]
             okexpr = True
             while stack:
                 e = stack.pop()
@@ -424,7 +428,7 @@ def within_basis(rep, M, rid):
                 else:
                     okexpr = False
             if okexpr and has_origin and idx:
-                corners[s2.targets[0].id] = (tuple(sorted(idx)), s2)
+                corners[cname] = (tuple(sorted(idx)), s2)
     if len(corners) < 6:
         raise AnalysisError(f"get_positions_within_basis: corner vectors of the searched cell not recognised ({len(corners)} found)")
     want = {(0,), (1,), (2,), (0, 1), (0, 2), (1, 2), (0, 1, 2)}
